@@ -3,6 +3,12 @@ From TV Require Import Levels.Model Directive.Model.
 From Coq Require Import Lia Sorted Permutation.
 Local Open Scope N_scope.
 
+(** A hypothesis about a source-read switch ([gen_... = b]) is kept sealed in proofs, so that no tactic can see whether
+    it is convertible to [true = false] in the tree at hand: every proof script then behaves the same for both shapes. *)
+Inductive sealed (P : Prop) : Prop := seal : P -> sealed P.
+Lemma unseal (P : Prop) : sealed P -> P.
+Proof. intros [H]. exact H. Qed.
+
 (** * Lawful comparisons *)
 Record lawful {A} (c : A -> A -> comparison) : Prop := {
   l_eq : forall a b, c a b = Eq <-> a = b;
